@@ -29,6 +29,8 @@ type Sched struct {
 	order   []int
 	// Trace is the sequence of (client, point) released
 	Trace []string
+	// Branch is the number of parked clients at each step (the branching factor of the schedule tree)
+	Branch []int
 	// OnStep is called (scheduler goroutine) each time every client is parked or done, before the next release
 	OnStep func(s *Sched)
 	// Filter, if set, says whether a gate call should park (default: any call carrying a client id)
@@ -155,6 +157,7 @@ func (s *Sched) Run(programs []func(ctx context.Context), choices []int) error {
 			ch = -ch
 		}
 		pick := parked[ch%len(parked)]
+		s.Branch = append(s.Branch, len(parked))
 		s.mu.Lock()
 		c := s.clients[pick]
 		s.Trace = append(s.Trace, fmt.Sprintf("%d@%s", pick, c.point))
